@@ -370,7 +370,8 @@ namespace occa {
   bool dtype_t::isCyclic(const dtypeVector_t &vec,
                          const int cycleLength) {
     const int size = (int) vec.size();
-    if ((size % cycleLength) != 0) {
+    // A type without entries (e.g. a tuple of size 0) is not a cycle of anything
+    if ((cycleLength <= 0) || ((size % cycleLength) != 0)) {
       return false;
     }
 
